@@ -223,7 +223,10 @@ Definition pq_query (p : path_query) : outcome (option bytes) :=
 Definition stream_window (checked : bool) (range : option (N * N)) (file_len : N) : outcome (N * N * N) :=
   let start := match range with Some (s, _) => s | None => 0 end in
   let end_ := match range with Some (_, e) => e | None => file_len end in
-  obind (sub_u64 checked end_ start) (fun len => Ok (start, end_, len)).     (* let len = end - start *)
+  obind (sub_u64 checked end_ start) (fun len =>                              (* let len = end - start *)
+  (* file.seek(SeekFrom::Start(start)) fails beyond i64::MAX (lseek: EINVAL): the 404 page is returned
+     without a stream, and SendKind::send applies the range to that page: its start is past the end, 416 *)
+  if 9223372036854775807 <? start then Err 416 else Ok (start, end_, len)).
 (** One turn of the streaming loop: [pos += read; buf_end = if pos > end { read - (pos - end) } else { read }] *)
 Definition stream_chunk (checked : bool) (pos read end_ : N) : outcome (N * N) :=
   obind (add_u64 checked pos read) (fun pos' =>
